@@ -494,6 +494,7 @@ def trace_vhdx_chain(tid, rng, nops, align=None):
         names = [f"l{i}.{'vhdx' if i == depth - 1 else 'avhdx'}" for i in range(depth)]
         layers, bases = [], []
         win = min(spb, 96)
+        nodata = rng.randrange(0, depth - 1) if rng.random() < 0.3 else None    # a differencing layer without any payload block
         for i in range(depth):
             is_base = i == depth - 1
             blocks, st, pp, bm, bitmaps = [], [], [], [], {}
@@ -503,6 +504,8 @@ def trace_vhdx_chain(tid, rng, nops, align=None):
                     s_ = rng.choice([6, 6, 2, 0, 3])
                 else:
                     s_ = rng.choice([7, 7, 7, 0, 6, 2])
+                if i == nodata:
+                    s_ = rng.choice([0, 2, 2, 3])
                 p = b if s_ in (6, 7) else None
                 present = []
                 if s_ == 7:
@@ -579,6 +582,7 @@ def trace_qcow2_chain(tid, rng, nops, align=None):
     # a backing image may be shorter (reads beyond its end are zeros) or longer than the image on top of it
     ncs = [nc0] + [max(1, nc0 + rng.choice([0, 0, 0, -1, -2, -3, 1])) for _ in range(depth - 1)]
     vfs, layers, bases = [], [], []
+    nodata = rng.randrange(0, depth - 1) if rng.random() < 0.3 else None    # an overlay without any allocated sub-cluster (zero bits only)
     for i in range(depth):
         is_base = i == depth - 1
         nc = ncs[i]
@@ -601,6 +605,8 @@ def trace_qcow2_chain(tid, rng, nops, align=None):
             else:
                 a = rng.choice([0xFFFFFFFF, 0x0000FFFF, 0x55555555, 0x80000001, 0])
                 z = rng.choice([0, ~a & 0xFF00FF00])
+            if i == nodata:
+                k, z, a = "U", z | (a & rng.getrandbits(32)), 0
             if k == "U":
                 a = 0
             hh = pos.pop() if k == "N" else 0
@@ -642,6 +648,7 @@ def trace_qcow2_chain_std(tid, rng, nops, align=None):
     nc0 = rng.randrange(l2n + 3, 4 * l2n)
     ncs = [nc0] + [max(1, nc0 + rng.choice([0, 0, -1, -l2n // 2, 3])) for _ in range(depth - 1)]
     vfs, layers, bases = [], [], []
+    nodata = rng.randrange(0, depth - 1) if rng.random() < 0.35 else None    # an overlay that holds no data cluster at all (zero clusters only)
     for i in range(depth):
         is_base = i == depth - 1
         nc = ncs[i]
@@ -653,6 +660,8 @@ def trace_qcow2_chain_std(tid, rng, nops, align=None):
         t, h, l2 = [], [], {}
         for c in range(nc):
             k = rng.choice(["U", "U", "N", "N", "ZP", "ZA"]) if l1[c // l2n] else "U"
+            if i == nodata and k in ("N", "ZA"):
+                k = "ZP"
             hh = pos.pop() if k in ("N", "ZA") else 0
             t.append(k)
             h.append(hh)
@@ -701,11 +710,15 @@ def trace_vdi_chain(tid, rng, nops, align=None):
         bs = rng.choice([4096, 65536])
         n = 4 * rng.randrange(1, 5)
     vfs, layers, bases = [], [], []
+    # a layer without a single data block (a snapshot that only discarded: zero blocks hide what lies below) is a layer all the same
+    nodata = rng.randrange(0, depth - 1) if rng.random() < 0.35 else None
     for i in range(depth):
         cbi = rng.choice([1, 2, 4]) if mixed else 1
         ni = n // cbi
         pos = _perm(rng, ni + 1)
         mp = [(-1 if rng.random() < 0.45 else -2 if rng.random() < 0.2 else pos.pop()) for _ in range(ni)]
+        if i == nodata:
+            mp = [rng.choice([-1, -2, -2]) for _ in range(ni)]
         vf, cell, doff, _ = enc_vdi.build({"n": ni, "cb": 1, "map": {c: mp[c] for c in range(ni)}, "size": ni, "parent": i < depth - 1},
                                           block_size=bs * cbi, file_id=i, P=ni + 1)
         vfs.append(vf)
